@@ -14,7 +14,7 @@ Signers == {"owner", "other", "risk", "newbie", "admin", "lp", "module"}
 OwnerRows == {r \in Rows : r.own \in {"id", "signer"}}
 
 (* Argument axes of an owner cell. Authorisation must not depend on the VALUE of an argument:
-   amt   - for messages that carry an amount: a small one, EXACTLY the whole available balance of the named position
+   amt   - for messages that carry an amount: zero, a small one, EXACTLY the whole available balance of the named position
            (where handlers take "close the position" shortcuts), and more than that;
    scope - for the order messages, which pair / app the message names: the pair where the market-making orders live
            ("home"), another pair of the same app where the holders keep resting orders whose per-pair ids collide
@@ -24,7 +24,7 @@ AmountRows == {"vault.MsgDeposit", "vault.MsgWithdraw", "vault.MsgDraw", "vault.
                "locker.MsgDepositAsset", "locker.MsgWithdrawAsset",
                "lend.Deposit", "lend.Withdraw", "lend.Borrow", "lend.DepositBorrow", "lend.Draw", "lend.Repay",
                "liquidity.Unfarm", "liquidity.UnfarmAndWithdraw", "auctionsV2.MsgDepositLimitBid", "auctionsV2.MsgWithdrawLimitBid"}
-AmountsOf(r) == IF r.id \in AmountRows THEN {"small", "whole", "over"} ELSE {"na"}
+AmountsOf(r) == IF r.id \in AmountRows THEN {"zero", "small", "whole", "over"} ELSE {"na"}
 ScopeRows == {"liquidity.CancelOrder", "liquidity.CancelAllOrders", "liquidity.CancelMMOrder"}
 ScopesOf(r) == IF r.id \in ScopeRows THEN {"home", "alt", "decoy"} ELSE {"home"}
 
